@@ -62,7 +62,7 @@ func alphaSubjects(t core.Tier) []any {
 	}
 	s := stringsUpTo(c20Alphabet, l)
 	// a few longer subjects around multi-byte boundaries
-	s = append(s, "ééééé", "世世", "aaaaaa", "Zzzzzzz9!", "\xc3", "\xe4\xb8", "a\xc3(", "é世a", strings.Repeat("x", 70))
+	s = append(s, "ééééé", "世世", "aaaaaa", "Zzzzzzz9!", "\xc3", "\xe4\xb8", "a\xc3(", "é世a", strings.Repeat("x", 70), "\u017f", "\u212a", "a\u212a9!", "\u0130\u0131")
 	alphaCache[l] = s
 	return s
 }
@@ -79,7 +79,9 @@ func emailSubjects(t core.Tier) []any {
 	for _, n := range []int{1, 62, 63, 64, 65} {
 		s = append(s, "x@"+lab(n), "x@"+lab(n)+".com", "x@b."+lab(n), "x@-"+lab(n), "x@"+lab(n)+"-")
 	}
-	s = append(s, "a@b.co", "A.B!#$%&'*+/=?^_`{|}~-@Z9.example", "a@b..c", "a@.b", "a@b.", "a b@c.d", "a@b c.d", "é@b.c", "a@é.c", "a@b.c\n", "\na@b.c", "a@@b.c", "@b.c", "a@", "a(b)@c.d", "\"a\"@c.d", "a@[1.2.3.4]", "a@b_c.d")
+	s = append(s, "a@b.co", "A.B!#$%&'*+/=?^_`{|}~-@Z9.example", "a@b..c", "a@.b", "a@b.", "a b@c.d", "a@b c.d", "é@b.c", "a@é.c", "a@b.c\n", "\na@b.c", "a@@b.c", "@b.c", "a@", "a(b)@c.d", "\"a\"@c.d", "a@[1.2.3.4]", "a@b_c.d",
+		// letters outside ASCII that Unicode case folding maps onto ASCII letters (long s, Kelvin sign): not part of the grammar
+		"ma\u017fter@doe.com", "john@\u212aelvin.com", "\u212a@b.co", "a@b.\u017fo", "a@\u017f.co", "a@b.c\u017f", "\u017f@\u017f.\u017f\u017f")
 	emailCache[l] = s
 	return s
 }
@@ -240,7 +242,9 @@ func buildC20Configs() []c20cfg {
 					s = append(s, gen.BaseTime.Add(d).In(z2))
 				}
 			}
-			s = append(s, time.Unix(0, 0).UTC(), time.Date(1, 1, 1, 0, 0, 0, 1, time.UTC), time.Date(9999, 12, 31, 23, 59, 59, 999999999, time.UTC))
+			s = append(s, time.Unix(0, 0).UTC(), time.Date(1, 1, 1, 0, 0, 0, 1, time.UTC), time.Date(9999, 12, 31, 23, 59, 59, 999999999, time.UTC),
+				// the year-1 instant carried in a zone: the same instant as time.Time{} but not the zero value of the type
+				time.Time{}.In(zones[1]), time.Time{}.In(zones[2]), time.Date(1, 1, 1, 5, 30, 0, 0, zones[1]), time.Unix(-62135596800, 0))
 			return s
 		}
 		for _, op := range []spec.TestOp{spec.TAfter, spec.TBefore, spec.TEQ} {
@@ -291,6 +295,18 @@ func buildC20Configs() []c20cfg {
 	}
 	for _, p := range []any{math.NaN(), 1.5, 0.0} {
 		out = append(out, c20cfg{kind: spec.Slice, elem: f64Elem, test: spec.Test{Op: spec.TContains, Arg: p}, subjects: fSets, name: fmt.Sprintf("Slice(Float64).Contains(%v)", p)})
+	}
+	// slice tests decide on the slice whatever its items do: some items violate the item schema
+	posElem := &spec.Node{Kind: spec.Int, Tests: []spec.Test{{Op: spec.TGT, Arg: 0}}}
+	mixedSets := func(core.Tier) []any {
+		return []any{[]int{1, -1, 3}, []int{-1}, []int{1, 2}, []int{-5, -6, -7}, []int{1, 2, 3}, []int{-1, 1}, []int{4, -4, 4, -4}}
+	}
+	for _, t := range []spec.Test{{Op: spec.TMax, N: 2}, {Op: spec.TMin, N: 2}, {Op: spec.TLen, N: 3}, {Op: spec.TContains, Arg: 1}, {Op: spec.TContains, Arg: -1}} {
+		name := fmt.Sprintf("Slice(Int.GT(0)).%s(%d)", t.Op, t.N)
+		if t.Op == spec.TContains {
+			name = fmt.Sprintf("Slice(Int.GT(0)).Contains(%v)", t.Arg)
+		}
+		out = append(out, c20cfg{kind: spec.Slice, elem: posElem, test: t, subjects: mixedSets, name: name})
 	}
 	// time elements: a time.Time holds a pointer to its location; deep equality looks through it, so two separately built
 	// but identical zones make equal values (and the same instant in another zone does not)
@@ -424,7 +440,13 @@ func (c20) RunCase(c *core.Ctx) {
 					cnt++
 				}
 			}
-			other := len(o.Issues) - cnt
+			other := 0
+			for _, ci := range o.Issues {
+				if ci.Code != code && (ci.Path == "" || ci.Code == "coerce" || ci.Code == "required" || ci.Code == "not_nil") {
+					other++ // the subject (or one of its items) never arrived: the test saw something else than the subject
+				}
+				// failed tests of the items of a slice (deeper paths) do not keep the slice's own tests from deciding on the items placed
+			}
 			if other > 0 {
 				// e.g. a coerce issue: the subject never reached the test in this mode (NaN into Int...). Not judged here.
 				c.Count("subject_did_not_reach_test", 1)
